@@ -6,6 +6,8 @@ package interp
 import (
 	"fmt"
 	"os"
+
+	"golang.org/x/tools/go/ssa"
 	"sort"
 	"strings"
 
@@ -96,6 +98,9 @@ type pathCtx struct {
 	entangled   map[string]bool     // variables occurring in a multi-variable pc literal
 	domHits     int
 	noWitness   bool
+	assertsOff  bool
+	stack       []*ssa.Function
+	panicStack  []string
 	s2started   bool
 	declared2   map[string]bool
 	flushed2    int
